@@ -13,7 +13,7 @@ import (
 func init() { register("C05", runC05) }
 
 func runC05(c *Check, tier string) {
-	c.Decides = "a target result is written only after the command (when there is one), the post-execution output checks and the bin-output chmod all returned nil, and no error on the way is dropped; the command executor and runner never turn a failed command into success; handler writes fail when a declared output cannot be read; there is a single writer of target results; a completion is successful only on the callback's nil-error branch and a failed completion cancels descendants (keep-going) or everything (fail-fast) and never releases a dependant; the build exits non-zero whenever an error was collected."
+	c.Decides = "a target result is written only after the command (when there is one), the post-execution output checks and the bin-output chmod all returned nil, and no error on the way is dropped; the command executor and runner never turn a failed command into success; handler writes fail when a declared output cannot be read; there is a single writer of target results; a completion is successful only on the callback's nil-error branch and a failed completion cancels descendants (keep-going) or everything (fail-fast) and never releases a dependant; the build exits non-zero whenever an error was collected; the post-execution output checks run every check every time (no memo); the taint of a target is removed only after its forced execution and completion succeeded."
 	c.NotDec = "that independent targets actually get scheduled (liveness), and the behaviour of the next build as a history."
 	ruleR05a(c, "R05a")
 	ruleR05b(c)
